@@ -70,6 +70,113 @@ def lit_for(p, j, side):
     return None
 
 
+PY_KINDS = [   # (C++ type, the spelling interrogate prints, name, boundary values as Python ints / floats)
+    ('unsigned long long', 'unsigned long long int', 'u64', [0, 1, 2 ** 63 - 1, 2 ** 63, 2 ** 63 + 1, 2 ** 64 - 1]),
+    ('long long', 'long long int', 'i64', [0, -1, -2 ** 63, 2 ** 63 - 1, 2 ** 40]),
+    ('unsigned int', 'unsigned int', 'u32', [0, 2 ** 31, 2 ** 32 - 1]),
+    ('int', 'int', 'i32', [0, -2 ** 31, 2 ** 31 - 1, -7]),
+    ('short', 'short int', 'i16', [-32768, 32767]),
+    ('unsigned short', 'unsigned short int', 'u16', [0, 65535, 40000]),
+    ('signed char', 'signed char', 'i8', [-128, 127]),
+    ('unsigned char', 'unsigned char', 'u8', [0, 255, 200]),
+    ('long', 'long int', 'long', [-2 ** 63, 2 ** 63 - 1, -2 ** 31 - 1]),
+    ('unsigned long', 'unsigned long int', 'ulong', [0, 2 ** 64 - 1, 2 ** 63]),
+    ('float', 'float', 'f32', [1.5, -0.25, 16777216.0]),
+    ('double', 'double', 'f64', [2.5, -1e-300, 9007199254740993.0, 1e300]),
+    ('bool', 'bool', 'bool', [True, False]),
+]
+
+
+def python_simple_stream(ck, b, wd, rng, n):
+    """the -python (simple) back-end EXECUTED: every scalar kind crosses an echo function, a method, a static method and a data member of a class, through a typedef too"""
+    import sysconfig
+    pyinc = sysconfig.get_paths()['include']
+    for li in range(n):
+        d = os.path.join(wd, 'py%d' % (li % 2))
+        vlib.shutil.rmtree(d, ignore_errors=True)
+        os.makedirs(d)
+        kinds = rng.sample(PY_KINDS, rng.randrange(6, len(PY_KINDS) + 1))
+        if li == 0:
+            kinds = list(PY_KINDS)
+        v0 = rng.randrange(0, 50)
+        H = ['#ifndef CPPPARSER', '#define __published public', '#define __begin_publish', '#define __end_publish', '#endif']
+        C = ['#include "lib.h"']
+        for ct, pt, nm, vals in kinds:
+            H.append('typedef %s T_%s;' % (ct, nm))
+        H += ['class K0 {', '__published:', '  K0(int v);']
+        C.append('K0::K0(int v) : state(v) {%s}' % ' '.join('f_%s = (%s)0;' % (nm, ct) for ct, pt, nm, vals in kinds))
+        for ct, pt, nm, vals in kinds:
+            use = rng.choice([ct, 'T_' + nm])
+            H += ['  %s m_%s(%s x) const;' % (use, nm, ct), '  static %s s_%s(%s x);' % (ct, nm, use), '  %s f_%s;' % (use, nm)]
+            C += ['%s K0::m_%s(%s x) const { return x; }' % (use, nm, ct), '%s K0::s_%s(%s x) { return x; }' % (ct, nm, use)]
+        H += ['public:', '  long long state;', '};', '__begin_publish']
+        for ct, pt, nm, vals in kinds:
+            use = rng.choice([ct, 'T_' + nm])
+            H.append('%s echo_%s(%s x);' % (use, nm, ct))
+            C.append('%s echo_%s(%s x) { return x; }' % (use, nm, ct))
+        H.append('__end_publish')
+        hdr, impl = '\n'.join(H) + '\n', '\n'.join(C) + '\n'
+        open(os.path.join(d, 'lib.h'), 'w').write(hdr)
+        open(os.path.join(d, 'lib.cxx'), 'w').write(impl)
+        rp = {'kind': 'spec', 'files': {'lib.h': hdr, 'lib.cxx': impl},
+              'cmd': 'interrogate -DCPPPARSER -python -fnames -do-module -nodb -oc w.cxx -od w.in -module pm -library pm lib.h; g++ -shared; python3 drive.py'}
+        ck.dist('python-simple-libraries')
+        p = vlib.sh([b['interrogate'], '-DCPPPARSER', '-S', os.path.join(b['src'], 'parser-inc'), '-python', '-fnames', '-do-module', '-nodb', '-oc', 'w.cxx', '-od', 'w.in',
+                     '-module', 'pm', '-library', 'pm', 'lib.h'], cwd=d)
+        if p.returncode != 0:
+            ck.count()
+            ck.violation('corr_C01_run', 'interrogate -python failed: ' + p.stdout[-300:], dict(rp, kind='correspondence'), nofail=True)
+            continue
+        q = vlib.sh(['g++', '-shared', '-fPIC', '-std=gnu++14', '-O0', '-w', '-I', d, '-I', pyinc, 'w.cxx', 'lib.cxx', '-o', 'pm.so'], cwd=d)
+        if q.returncode != 0:
+            errs = [l for l in q.stdout.splitlines() if 'error' in l][:3]
+            ck.count()
+            ck.spec_failure('compile:python-simple', 'the -python wrappers do not compile: %s' % '; '.join(errs)[:400], rp)
+            continue
+        T = ['import re, sys, struct', 'sys.path.insert(0, %r)' % d, 'src = open(%r).read()' % os.path.join(d, 'w.cxx'), 'names = {}',
+             'for m in re.finditer(r"/\\*\\n \\* Python simple wrapper for\\n \\* (.*?)\\n \\*/\\n(?:static )?PyObject \\*\\n(\\w+)\\(", src): names[m.group(1)] = m.group(2)',
+             'import pm', 'bad = []', 'n = [0]',
+             'def W(suffix):',
+             '    c = [v for k, v in names.items() if k.endswith(suffix)]',
+             '    if len(c) != 1: bad.append("no unique wrapper for ..." + suffix); return None',
+             '    return getattr(pm, c[0])',
+             'def check(what, fn, want):',
+             '    n[0] += 1',
+             '    try: got = fn()',
+             '    except BaseException as e: got = ("EXC", type(e).__name__)',
+             '    if got != want or type(got) != type(want): bad.append("%s: wrapper returned %r, C++ returns %r" % (what, got, want))',
+             'ctor = W("K0::K0(int v)")', 'a = ctor(%d)' % v0, 'b2 = ctor(%d)' % (v0 + 1)]
+        for ct, pt, nm, vals in kinds:
+            T.append('e, m, g = W(" echo_%s(%s x)"), W("K0::m_%s(%s x) const"), W("K0::get_f_%s(void) const")' % (nm, pt, nm, pt, nm))
+            T.append('st = [getattr(pm, v) for k, v in names.items() if "K0::s_%s(" in k]' % nm)
+            T.append('se = [getattr(pm, v) for k, v in names.items() if "K0::set_f_%s(" in k]' % nm)
+            for v in vals:
+                want = repr(v) if nm != 'f32' else 'struct.unpack("f", struct.pack("f", %r))[0]' % v
+                T.append('if e: check("echo_%s(%r)", lambda: e(%r), %s)' % (nm, v, v, want))
+                T.append('if m: check("a.m_%s(%r)", lambda: m(a, %r), %s)' % (nm, v, v, want))
+                T.append('if len(st) == 1: check("K0::s_%s(%r)", lambda: st[0](%r), %s)' % (nm, v, v, want))
+                T.append('if len(se) == 1 and g: check("a.set_f_%s(%r)", lambda: se[0](a, %r), None); check("a.f_%s after set to %r", lambda: g(a), %s); check("b.f_%s untouched", lambda: g(b2), type(%s)(0))'
+                         % (nm, v, v, nm, v, want, nm, want))
+                T.append('if len(se) == 1: check("a.set_f_%s(0)", lambda: se[0](a, type(%s)(0)), None)' % (nm, want))
+            T.append('if len(st) != 1 or len(se) != 1: bad.append("static/setter wrapper of %s not found")' % nm)
+        T += ['print("DONE", n[0], len(bad))', 'for x in bad: print("BAD", x)']
+        open(os.path.join(d, 'drive.py'), 'w').write('\n'.join(T) + '\n')
+        r = subprocess.run([sys.executable, 'drive.py'], cwd=d, stdout=subprocess.PIPE, stderr=subprocess.PIPE, text=True, timeout=120)
+        out = r.stdout.splitlines()
+        done = [l for l in out if l.startswith('DONE')]
+        if r.returncode != 0 or not done:
+            ck.count()
+            ck.spec_failure('crash:python-simple', 'calling the -python wrappers crashed: %s' % r.stderr[-400:], dict(rp, driver='\n'.join(T)[-2500:]))
+            continue
+        ck.count(int(done[0].split()[1]))
+        ck.dist('python-simple-calls', int(done[0].split()[1]))
+        bads = [l[4:] for l in out if l.startswith('BAD')]
+        for x in bads[:3]:
+            ck.spec_failure('mismatch:python-simple:' + ('value' if 'wrapper returned' in x else 'wrapper-missing'), x[:400], dict(rp, driver_output=bads[:10]))
+        if not bads:
+            ck.nontrivial(('py', li))
+
+
 def main():
     ck = vlib.Check('C01')
     ck.coq()
@@ -320,13 +427,15 @@ def main():
             ck.nontrivial(li)
         if li == 0:
             ck.sample({'opts': opts, 'wrappers_called': ncalls, 'result': done[0]})
-    ck.cov['streams'] = {'libraries': n_libs}
+    n_py = ck.scale(6, 80)
+    python_simple_stream(ck, b, wd, rng, n_py)
+    ck.cov['streams'] = {'libraries': n_libs, 'python_simple_libraries': n_py}
     ck.cov['rule'] = ('instrumented libraries of 1-3 classes (single/multiple/virtual public inheritance, static/const/virtual methods, overload sets, trailing defaults, operators, data members of '
                       'every scalar kind, a namespace function, a typedef\'d template instantiation) x option sets {-c -fnames} x {-string} x {-promiscuous}: the generated file is compiled '
                       '(ASan+UBSan) with the library and a driver; every wrapper of every default-argument variant is called three times with boundary values of every integer width, floats, bool, '
                       'enum, C strings / std::string, object pointers/references/values (classes with their own copy and move constructors, the move marking its source) and compared with the direct C++ call: return value, trace log, states of this and of argument objects; '
                       'constructors, copy constructors, getters/setters, operator [] (const, non-const) and the synthesized item assignment, upcasts/downcasts by pointer offset. Non-trivial = library whose every call agreed')
-    ck.assumptions += ['the -python back-end and -true-names are not executed here (C03 compiles them); only wrappers reachable by name (-fnames) are called',
+    ck.assumptions += ['the -python back-end is executed for scalar kinds only (echo functions, methods, static methods, data members, typedefs; built as an extension module); -true-names is compiled by C03; only wrappers reachable by name (-fnames) are called',
                        'values crossing as char const * contain no embedded NUL (c01_embedded_nul_refuted shows why this is needed)',
                        'the driver maps a database wrapper to the declared function by scoped name and parameter types; an entry it cannot map is reported as a correspondence break']
     ck.finish()
